@@ -18,6 +18,7 @@ impl<const N:usize, const SIZE: usize> MemBuilder for StackN<N, SIZE>{
 
     #[inline]
     fn build(&mut self, element_layout: Layout) -> Self::Mem {
+        assert!(element_layout.align() <= super::STACK_MAX_ALIGN, "Unsupported alignment!");
         assert!(N*element_layout.size() <= SIZE, "Insufficient storage!");
         StackNMem{
             mem: MaybeUninit::uninit(),
@@ -26,6 +27,10 @@ impl<const N:usize, const SIZE: usize> MemBuilder for StackN<N, SIZE>{
     }
 }
 
+// `mem` comes first and the struct is over-aligned, so that the byte buffer is
+// suitably aligned for any element type with alignment up to `STACK_MAX_ALIGN`,
+// wherever the vector itself is placed.
+#[repr(C, align(64))]
 pub struct StackNMem<const N:usize, const SIZE: usize>{
     mem: MaybeUninit<[u8; SIZE]>,
     element_layout: Layout
